@@ -368,3 +368,22 @@ def role_env(F, role):
     for k, v in role_consts(F)[role].items():
         env[("const", "<Role as mqtt::connection::role::RoleType>::%s" % k)] = v
     return env
+
+
+def agg_field(F, v, name):
+    """Field `name` of an abstract struct value (by the ADT's field table)."""
+    if not (isinstance(v, tuple) and v and v[0] == "agg"):
+        return None
+    a = F.adts.get(v[1])
+    if not a:
+        return None
+    for var in a["variants"]:
+        if var["name"] == v[2]:
+            for f in var["fields"]:
+                if f["name"] == name and f["i"] < len(v[3]):
+                    return v[3][f["i"]]
+    return None
+
+
+def wire_value(F, adt, variant):
+    return F.discr_map(adt)[variant]
